@@ -295,7 +295,7 @@ def runJdn (toks : List String) : String :=
   match buildTerm toks with
   | none => "bad-op"
   | some (v, _) =>
-    if bigDict v || (ppRefusesMisreadSymbols && needsScan v) then "skip" else
+    if ppRefusesMisreadSymbols && needsScan v then "skip" else
     -- symbols that look like numbers need the scanner: not available here -> only when the source refuses them
     match jdn (fun _ => some "?") fmtOfTag 1024 v with
     | some bs => if bs.isEmpty then "-" else hexOfB bs
